@@ -65,6 +65,9 @@ type caseDef struct {
 	// FlakyServer: the first download attempt gets a truncated body (a failed
 	// operation), the retry succeeds.
 	FlakyServer bool `json:"flaky_server,omitempty"`
+	// FlakyCloseDelimited: the failed first attempt announces no Content-Length (body delimited by the end of the
+	// connection) and is cut mid-body; only the length of what arrived could tell that it is a fragment.
+	FlakyCloseDelimited bool `json:"flaky_close_delimited,omitempty"`
 }
 
 func (c caseDef) id() string {
@@ -156,10 +159,12 @@ type served struct {
 	data []byte
 	// truncateFirst > 0: that many requests get a truncated body first
 	truncateFirst atomic.Int32
+	// closeDelimited: the truncated answers carry no Content-Length
+	closeDelimited bool
 }
 
-func serve(path string, data []byte, truncateFirst int) {
-	sv := &served{data: data}
+func serve(path string, data []byte, truncateFirst int, closeDelimited ...bool) {
+	sv := &served{data: data, closeDelimited: len(closeDelimited) > 0 && closeDelimited[0]}
 	sv.truncateFirst.Store(int32(truncateFirst))
 	srvFiles.Store(path, sv)
 }
@@ -174,6 +179,19 @@ func server() *httptest.Server {
 			}
 			sv := v.(*served)
 			b := sv.data
+			if sv.closeDelimited && sv.truncateFirst.Load() > 0 {
+				sv.truncateFirst.Add(-1)
+				// no Content-Length, no chunking: the body ends where the connection ends - here in the middle
+				if hj, ok := w.(http.Hijacker); ok {
+					if conn, rw, err := hj.Hijack(); err == nil {
+						_, _ = rw.WriteString("HTTP/1.1 200 OK\r\nContent-Type: application/octet-stream\r\nConnection: close\r\n\r\n")
+						_, _ = rw.Write(b[:len(b)/2])
+						_ = rw.Flush()
+						_ = conn.Close()
+					}
+				}
+				return
+			}
 			w.Header().Set("Content-Length", fmt.Sprint(len(b)))
 			w.Header().Set("Content-Type", "application/octet-stream")
 			if sv.truncateFirst.Add(-1) >= 0 {
@@ -453,7 +471,7 @@ func build(c caseDef) (*built, error) {
 		if c.FlakyServer {
 			truncated = 1
 		}
-		serve(token+"/"+rel, newData, truncated)
+		serve(token+"/"+rel, newData, truncated, c.FlakyCloseDelimited)
 		cleanups = append(cleanups, func() { srvFiles.Delete(token + "/" + rel); srvFiles.Delete(token + "/" + rel + ".sig") })
 		b.exp.MayCreateDirs = []string{filepath.Join(storage, "x")}
 		fileTarget := target{Path: dest, Kind: "file", NewData: newData, SingleFile: true}
